@@ -92,6 +92,30 @@ var astSend = []string{
 	"saltpack.csprngShuffle",
 }
 
+// gen/GoAstSign.v: the signing and signcryption senders
+var astSign = []string{
+	"saltpack.newSignAttachedStream",
+	"saltpack.signAttachedStream_Write",
+	"saltpack.signAttachedStream_Close",
+	"saltpack.signAttachedStream_signBlock",
+	"saltpack.signAttachedStream_computeSig",
+	"saltpack.makeSignatureBlock",
+	"saltpack.checkSignBlockRead",
+	"saltpack.newSignDetachedStream",
+	"saltpack.signDetachedStream_Write",
+	"saltpack.signDetachedStream_Close",
+	"saltpack.signcryptSealStream_Write",
+	"saltpack.signcryptSealStream_signcryptBlock",
+	"saltpack.signcryptSealStream_Close",
+	"saltpack.signcryptSealStream_init",
+	"saltpack.derivedEphemeralKeyFromBoxKeys",
+	"saltpack.keyIdentifierFromDerivedKey",
+	"saltpack.receiverBoxKey_makeReceiverKeys",
+	"saltpack.ReceiverSymmetricKey_makeReceiverKeys",
+	"saltpack.checkSigncryptReceiverCount",
+	"saltpack.checkSigncryptReceivers",
+}
+
 type astGen struct {
 	info    *types.Info
 	pkg     *types.Package
@@ -265,6 +289,11 @@ func (g *astGen) expr(e ast.Expr) string {
 			if id, ok := x.X.(*ast.Ident); ok {
 				return fmt.Sprintf("(EAddr %s)", coqStr(id.Name))
 			}
+			if cl, ok := x.X.(*ast.CompositeLit); ok {
+				// &T{...}: a fresh object; objects are values in the embedding (a method's receiver is
+				// passed and written back by value), so the pointer to a fresh literal is the literal
+				return g.expr(cl)
+			}
 			return fmt.Sprintf("(EUnsup %s)", coqStr("address-of"))
 		}
 		return fmt.Sprintf("(EUnsup %s)", coqStr("unary "+x.Op.String()))
@@ -299,6 +328,18 @@ func (g *astGen) expr(e ast.Expr) string {
 		if id, ok := x.Fun.(*ast.Ident); ok && id.Name == "make" && len(x.Args) >= 1 {
 			if _, isMap := g.info.TypeOf(x.Args[0]).Underlying().(*types.Map); isMap {
 				return "(ECall \"makemap\" [])"
+			}
+		}
+		if id, ok := x.Fun.(*ast.Ident); ok && id.Name == "make" && len(x.Args) == 3 {
+			// make([]T, n, cap): the capacity is not observable; []byte as with two arguments, another
+			// element type only with length 0 (the empty list)
+			if sl, ok := g.info.TypeOf(x.Args[0]).Underlying().(*types.Slice); ok {
+				if b, isB := sl.Elem().Underlying().(*types.Basic); isB && b.Kind() == types.Byte {
+					return fmt.Sprintf("(ECall \"make\" [%s])", g.expr(x.Args[1]))
+				}
+				if tv, ok := g.info.Types[x.Args[1]]; ok && tv.Value != nil && tv.Value.String() == "0" {
+					return "(ECall \"makemap\" [])"
+				}
 			}
 		}
 		if id, ok := x.Fun.(*ast.Ident); ok && id.Name == "make" && len(x.Args) == 2 {
